@@ -5,7 +5,9 @@ PROP = {
   "saml2_tophat.sigver:RSASigner.verify",
   "saml2_tophat.sigver:verify_redirect_signature",
   "saml2_tophat.pack:http_redirect_message[SAMLRequest]",
-  "saml2_tophat.pack:http_redirect_message[SAMLResponse]"
+  "saml2_tophat.pack:http_redirect_message[SAMLResponse]",
+  "saml2_tophat.entity:Entity.apply_binding[redirect,SAMLRequest]",
+  "saml2_tophat.entity:Entity.apply_binding[redirect,SAMLResponse]"
  ],
  "level": "proof",
  "level_text": "get_signer: the returned signer is a fresh object carrying the caller's key and nothing allocated before the call is written (frame obligation) -- so no interleaving of other entities can change the key it signs with; sign/verify use that key; http_redirect_message signs exactly SAMLRequest|SAMLResponse, RelayState?, SigAlg (urlencoded, in that order) with the signer's key; verify_redirect_signature rebuilds the same string from the received parameters and verifies it under the given certificate, and never verifies for a missing / unsupported algorithm. All obligations discharged.",
